@@ -273,7 +273,7 @@ impl Get for Impl {
         match arg(self.0@, value, 0) { Some(JsonValue::Array(l)) => Some(json_array(sorted_stable::<JsonValue>(l@))), _ => None }
     }
 //@@ fn f.sort = src/functions/list/list_manipulations/sort.rs :: fn get :: impl Get for Impl :: fn get
-//@@ safety C07 C04
+//@@ safety C07 C04 C19
 //@@ post sorted "(sort l) is the stable sort of the list by the one total order (a permutation, non-decreasing, ties in arrival order); nothing for a non-list"
 //@@ body-start
         broadcast use group_json_names, super::cl::group_clone_is_copy;
@@ -290,7 +290,7 @@ impl Get for Impl {
         match arg(self.0@, value, 0) { Some(JsonValue::Array(l)) => Some(json_array(deduped::<JsonValue>(sorted_unstable::<JsonValue>(l@)))), _ => None }
     }
 //@@ fn f.sort_unique = src/functions/list/list_manipulations/sort_unique.rs :: fn get :: impl Get for Impl :: fn get
-//@@ safety C07 C04
+//@@ safety C07 C04 C19
 //@@ post sorted "(sort_unique l) is the list sorted by the one total order with consecutive equal elements dropped; nothing for a non-list"
 //@@ body-start
         broadcast use group_json_names, super::cl::group_clone_is_copy;
